@@ -109,6 +109,10 @@ theorem all_noFault (rest : List Token) :
       split
       · exact stop_noFault _ _
       · exact ihL _ _ _ h.2
+    · dsimp only
+      split
+      · exact stop_noFault _ _
+      · exact ihL _ _ _ h.2
     · exact stop_noFault _ _
     · exact hc
 
